@@ -286,8 +286,8 @@ impl Property for C01 {
 
 pub fn components_json() -> serde_json::Value {
     serde_json::json!({
-        "real_code": ["texlang (VM, lexer, parsers, command map, save stack, serde)", "texlang-stdlib (all primitives via built_in_commands::<SimState>() except \\sleep, which calls the real thread::sleep)", "texlang-common", "texcraft-stdext", "common", "serde_json / rmp-serde / bincode"],
-        "stubs": ["SimFs (FileSystem)", "SimTerminal (TerminalIn)", "SimWriter (terminal_out / log_file)", "SimState glue (same components and hook delegations as StdLibState, incl. the repository's tracingmacros hook, whose println! output goes to /dev/null; plus the step budgets)", "texlang_stdlib::StdLibState itself in every 6th C08 run (stdproc.rs)", "hash universe per simulated process (interposed getrandom)", "clock: the job's boot clock, written into the time component right after VM creation (texlang-stdlib is built with its default features, so `Default` reads the real clock once and is overwritten before the first line)"],
+        "real_code": ["texlang (VM, lexer, parsers, command map, save stack, serde; default features, i.e. as shipped)", "texlang_stdlib::StdLibState itself (the repository's own state type with its hook delegations) in every 6th C08 run, every 8th C01 run and, for C09 jobs that touch neither files nor the terminal, in a second execution of about 3 % of the runs (stdproc.rs)", "texlang-stdlib (all primitives via built_in_commands::<SimState>() except \\sleep, which calls the real thread::sleep)", "texlang-common", "texcraft-stdext", "common", "serde_json / rmp-serde / bincode"],
+        "stubs": ["SimFs (FileSystem)", "SimTerminal (TerminalIn)", "SimWriter (terminal_out / log_file)", "SimState glue in all other runs (same components and hook delegations as StdLibState, incl. the repository's tracingmacros hook, whose println! output goes to /dev/null; plus the step budgets)", "hash universe per simulated process (interposed getrandom)", "clock: the job's boot clock, written into the time component right after VM creation (texlang-stdlib is built with its default features, so `Default` reads the real clock once and is overwritten before the first line)"],
     })
 }
 
